@@ -9,6 +9,7 @@
 #define M_TASK_MAX_THREADS    16
 
 static void src_deactivate(ev_src_t *t);
+static void src_disown(ev_src_t *t);
 static void src_priv_dtor(void *data);
 static void *task_thread(void *data);
 static ev_src_t *create_src(m_mod_t *mod, m_src_types type, process_cb proc,
@@ -104,6 +105,18 @@ static void src_deactivate(ev_src_t *t) {
             t->fd_src.fd = -1;
         }
     }
+}
+
+/*
+ * Registration was refused: user keeps ownership of what it passed,
+ * ie: do not close its fd (it may well be the fd of the already registered
+ * source that caused the refusal) nor free its userdata.
+ */
+static void src_disown(ev_src_t *t) {
+    if (!(t->flags & M_SRC_DUP)) {
+        t->flags &= ~M_SRC_FD_AUTOCLOSE;
+    }
+    t->flags &= ~M_SRC_AUTOFREE;
 }
 
 /* Dtor for modules' sources trees */
@@ -457,11 +470,13 @@ int register_mod_src_priv(m_mod_t *mod, m_src_types type, const void *src_data,
                 if (ret == -1) {
                     ret = -errno;
                 }
+                src_disown(src);
                 m_bst_remove(mod->srcs[type], src);
             }
         }
         return ret;
     }
+    src_disown(src);
     m_mem_unref(src);
     return ret;
 }
